@@ -131,6 +131,8 @@ def run(ctx):
         ctx.check(byte in consts, "C10.constants", f"C10.constants:sigil:{mod}", w.where(fv), bad_msg=f"sigil byte passed by {mod}::validate is {consts}, expected {byte} ({chr(byte)!r})")
     server_name_rules(ctx, w)
     length_rules(ctx, w)
+    byte_limit_rules(ctx, w)
+    charset_rules(ctx, w)
     localpart_rules(ctx, w)
     split_agreement(ctx, w, "C10.split-agreement")
     forms_rules(ctx, w, types)
@@ -504,6 +506,92 @@ def forms_rules(ctx, w, types):
     ctx.floor("identifier Hash/Eq/Ord impls examined", n, 100)
 
 
+ASCII_ONLY_CALLEE = re.compile(r"(::is_ascii_\w+|::contains|::eq|::ne|::matches|::any|::all|::iter|::into_iter|::next|::as_bytes|::deref)$")
+
+
+def byte_limit_rules(ctx, w):
+    """C10.byte-limit: the opaque identifiers with a length limit (client secret and session ID: 255; room version: 32) are never accepted
+    with more bytes than the limit. Decided from the validator's paths: with byte length = limit + 1 no accepting path is feasible; a limit
+    on the number of code points counts only together with an accepting condition that every character is ASCII."""
+    ctx.rule("C10.byte-limit", "client_secret::validate / validate_session_id (255) and room_version_id::validate (32): no accepting path is feasible for an input "
+                               "one byte over the limit - the test is on str::len (bytes), or on the code point count together with an all-ASCII character class")
+    dex = D.Dex(w.lookup, adt_discr=w.adt_discr, inline=lambda n: False)
+    for name, limit in (("ruma_identifiers_validation::client_secret::validate", 255), ("ruma_common::identifiers::session_id::validate_session_id", 255),
+                        ("ruma_identifiers_validation::room_version_id::validate", 32)):
+        f = w.fn(name)
+        paths = dex.paths(f, [D.sym("s")])
+        okp = [p for p in paths if p.kind == "ret" and U.is_ok(p.ret)]
+        ctx.floor(f"accepting paths of {name}", len(okp), 1)
+        over = {"str::len(s)": limit + 1, "len(s)": limit + 1, "re:^(slice::)?len\\((str::)?as_bytes\\(s\\)\\)$": limit + 1}
+        left = [p for p in D.evaluate(okp, U.int_valuation(over))]
+        how = "byte length"
+        if left:
+            # a code point limit bounds the bytes only if accepted strings are ASCII
+            def ascii_class(p):
+                for a, t in p.conds:
+                    m = re.search(r"Iterator::all\(str::chars\(s\), closure\[([^\]]+)\]\)", D.show_atom(a))
+                    if m and t:
+                        c2 = w.fn(m.group(1))
+                        names = [M.callee_name(c) for _, c in M.calls(c2["body"])]
+                        return bool(names) and all(ASCII_ONLY_CALLEE.search(n_) for n_ in names) and any("is_ascii_" in n_ for n_ in names)
+                return False
+            if all(ascii_class(p) for p in left):
+                over2 = dict(over)
+                over2["Iterator::count(str::chars(s))"] = limit + 1
+                left = [p for p in D.evaluate(left, U.int_valuation(over2))]
+                how = "code point count with an all-ASCII class"
+        key = f"C10.byte-limit:{name.split('::')[-2]}"
+        ctx.check(not left, "C10.byte-limit", key, w.where(f),
+                  bad_msg=f"{name} accepts an input of {limit + 1} bytes: accepting path under {[(D.show_atom(a), t) for a, t in (left[0].conds if left else [])]} "
+                          f"(a limit on code points with a non-ASCII character class admits up to {4 * limit} bytes)", ok_msg=how)
+
+
+ALNUM = "0123456789abcdefghijklmnopqrstuvwxyzABCDEFGHIJKLMNOPQRSTUVWXYZ"
+# identifier -> the characters its grammar is made of (Matrix specification: client secret / session ID `[0-9a-zA-Z.=_-]`; key version of a
+# server signing key `[a-zA-Z0-9_]`; unpadded/padded standard base64 alphabet for a base64 public key)
+CHARSETS = {"client_secret": ALNUM + ".=_-", "server_signing_key_version": ALNUM + "_", "base64_public_key": ALNUM + "+/="}
+
+
+def charset_rules(ctx, w):
+    """C10.charset: the opaque identifiers whose grammar is a plain ASCII character class are accepted only if every character is in that
+    class. The class is read off the validator: its accepting paths require `s.chars().all(closure)` (or bytes), and the closure's truth table
+    over the code points 0..=255 must equal the grammar's class; a Unicode-aware classification (char::is_alphanumeric) cannot be tabulated
+    and accepts letters and digits of every script."""
+    ctx.rule("C10.charset", "client_secret / server_signing_key_version / base64_public_key validators: every accepting path requires all characters to pass a "
+                            "predicate whose truth table (code points 0..=255, ASCII classifications by their documented meaning) equals the grammar's ASCII class; "
+                            "Unicode-aware classifications are refused")
+    dex = D.Dex(w.lookup, adt_discr=w.adt_discr, inline=lambda n: False)
+    for mod, chars in CHARSETS.items():
+        f = w.fn(f"ruma_identifiers_validation::{mod}::validate")
+        okp = [p for p in dex.paths(f, [D.sym("s")]) if p.kind == "ret" and U.is_ok(p.ret)]
+        ctx.floor(f"accepting paths of {mod}::validate", len(okp), 1)
+        clos = set()
+        unguarded = False
+        for p in okp:
+            found = [re.search(r"Iterator::all\((?:str::chars|str::bytes|slice::iter\(str::as_bytes)\(s\)\)?, closure\[([^\]]+)\]\)", D.show_atom(a))
+                     for a, t in p.conds if t]
+            found = [m.group(1) for m in found if m]
+            if not found:
+                unguarded = True
+            clos.update(found)
+        key = f"C10.charset:{mod}"
+        if unguarded or not clos:
+            ctx.violation("C10.charset", key, w.where(f), f"{mod}::validate has an accepting path without an all-characters test")
+            continue
+        problems = []
+        for cn in sorted(clos):
+            table = byte_truth_table(w, w.fn(cn))
+            if isinstance(table, str):
+                problems.append(table)
+                continue
+            got = {chr(b) for b in range(256) if table[b]}
+            if got != set(chars):
+                problems.append(f"accepts {sorted(got - set(chars))[:8]} beyond / refuses {sorted(set(chars) - got)[:8]} of the grammar's class")
+        ctx.check(not problems, "C10.charset", key, w.where(f),
+                  bad_msg=f"{mod}::validate does not restrict the characters to the grammar's class [{chars[62:]} and ASCII letters and digits]: {problems} "
+                          f"(e.g. `é` or `٣` is accepted)", ok_msg=f"class = ASCII alphanumerics + {chars[62:]!r}")
+
+
 def length_rules(ctx, w):
     """C10.length: every accepting path of the validators of sigil identifiers passes through validate_id(whole input, sigil) == Ok,
     the one place that enforces the leading sigil and the 255-byte limit (C10.constants checks validate_id itself)."""
@@ -623,6 +711,9 @@ def byte_truth_table(w, clo):
                 m = re.match(r"^(?:\w+::)*(is_ascii\w*)\(b\)$", t)
                 if m and m.group(1) in U8_PREDICATES:
                     return U8_PREDICATES[m.group(1)](b)
+                m = re.match(r"^(?:\w+::)*contains\('([^']*)', b\)$", t)      # `".=_-".contains(c)`
+                if m:
+                    return chr(b) in m.group(1)
                 raise KeyError(t)
             if atom[0] == "int":         # switch on the byte / char value (`matches!(c, ':' | '\\0')`)
                 if D.show(atom[1]) in ("b", "cast(b)") and isinstance(atom[2], int):
